@@ -14,6 +14,7 @@ The executor is TOTAL: it stops at the first event that carries a false fact, ev
 import hashlib
 import hmac as _hmac
 import struct
+import warnings
 
 from cryptography import x509
 from cryptography.hazmat.primitives import hashes, keywrap
@@ -21,6 +22,7 @@ from cryptography.hazmat.primitives.asymmetric import padding as _apad
 from cryptography.hazmat.primitives.asymmetric import rsa as _rsa
 from cryptography.hazmat.primitives.ciphers import Cipher, algorithms, modes
 
+warnings.filterwarnings("ignore", message=".*serial number.*")      # tampered certificates
 HDR_FMT = "<16s4s4s2BH4I4H4sQ12HI4s"
 HDR_SIZE = struct.calcsize(HDR_FMT)  # 96
 assert HDR_SIZE == 96
@@ -203,7 +205,7 @@ def _run(data, kek, log, max_payload_log):
         major=maj, minor=mnr, flags=flags, imageBlocks=min(image_blocks, 2**31 - 1), firstTag=min(first_tag, 2**31 - 1),
         firstId=limbs(first_id), certOff=min(cert_off, 2**31 - 1), hdrBlocks=hdr_blocks, kbBlock=kb_block, kbCount=kb_cnt, maxMac=max_mac,
         pv=[_bcd(sw(pv0)), _bcd(sw(pv1)), _bcd(sw(pv2))], cv=[_bcd(sw(cv0)), _bcd(sw(cv1)), _bcd(sw(cv2))], build=limbs(build),
-        ts=[min(tsec >> 16, 2**31 - 1), tsec & 0xFFFF, tus], nonceCtr=limbs(ctr0), ctrNoWrap=ctr0 + nblk < 2**32)
+        ts=[min(tsec >> 16, 2**31 - 1), tsec & 0xFFFF, tus], nonceCtr=limbs(ctr0), nonce=nonce.hex(), ctrNoWrap=ctr0 + nblk < 2**32)
     v21 = (maj, mnr) == (2, 1)
     signed = bool(flags & 0x8)
     sha = v21 and bool(flags & 0x8000)
@@ -215,7 +217,7 @@ def _run(data, kek, log, max_payload_log):
         ok = len(keys) == 64
     except Exception:  # noqa: BLE001
         keys, ok = bytes(64), False
-    log(ev="UnwrapKeyBlob", at=kb_block, n=kb_cnt, ok=ok)
+    log(ev="UnwrapKeyBlob", at=kb_block, n=kb_cnt, ok=ok, keys=hashlib.sha256(keys).hexdigest()[:32])
     dek, mac = keys[:32], keys[32:]
 
     def dec(blk_index, blk):
